@@ -4,6 +4,8 @@ R10.1 (reason, guard) instance table on the abstract paths of the four recording
 R10.2 who-may-write the list, R10.3 verdict tables (both end states), R10.4 capacity on every
 call history (structural latch / once-only rule).
 """
+import os
+
 from .framework import body_loc
 from .interp import shape, tree_leaf, variant_at, PathLimit, Unsupported, TOP
 from .tables import mk_interp, ref, call_recorder, contains_bytes
@@ -437,6 +439,53 @@ def _pushed_value(b, bb, t):
     return None
 
 
+def _values_reaching(prog, caller, helper):
+    """set of enum variants passed as the reason by `caller` to `helper` on the abstract paths of `caller` run on unknown
+    arguments, or None when some path passes a value E4 cannot name"""
+    from .interp import PathLimit, Unsupported, variant_at
+    seen = set()
+    unknown = []
+
+    def hook(interp, st, kind, info):
+        if kind != "call":
+            return
+        call = info["call"]
+        if call.callee and (call.callee.get("resolved") or call.callee.get("def")) == helper.id and call.fr.body.id == caller.id:
+            v = variant_at(call.deref(call.args[1])) if len(call.args) > 1 else None
+            if v:
+                seen.add(v)
+            else:
+                unknown.append(1)
+    I = mk_interp(prog, event_hook=hook, max_states=40000,
+                  opaque={"try_parse_response", "try_parse_partial_response", "try_parse_request"})   # head parsers: results unknown
+    I.summarize = {helper.short}
+    args = []
+    inits = []
+    for i in range(caller.arg_count):
+        ty = caller.locals[i + 1]["ty"]
+        if ty.startswith("&"):
+            root = ("OBJ", "a%d" % i)
+            inits.append((root, ("term", ("in", "a%d" % i))))
+            args.append(ref(root))
+        else:
+            args.append({(): ("term", ("in", "a%d" % i))})
+
+    def init(st):
+        for root, l in inits:
+            st.write_leaf(root, (), l)
+    try:
+        I.run(caller, args, init)
+    except (PathLimit, Unsupported) as e:
+        if os.environ.get("HOOT_DEBUG"):
+            print("values_reaching:", e)
+        return None
+    if os.environ.get("HOOT_DEBUG"):
+        print("values_reaching:", seen, len(unknown))
+    if unknown or not seen:
+        return None
+    return seen
+
+
 def rule_capacity(ctx):
     """R10.4: the fixed-capacity list cannot overflow on any call history"""
     R = "R10.4"
@@ -479,7 +528,12 @@ def rule_capacity(ctx):
                             if v2 and v2[0] == "const":
                                 latched_values.add(v2[1])
                             else:
-                                bad.append("helper %s is called with a non-constant reason in %s" % (b.short, c.short))
+                                # the reason is a computed value: the values E4 sees arriving at the helper from this caller
+                                vs = _values_reaching(prog, c, b)
+                                if vs is None:
+                                    bad.append("helper %s is called with a non-constant reason in %s" % (b.short, c.short))
+                                else:
+                                    latched_values.update(vs)
             else:
                 bad.append("cannot determine the value pushed at %s" % where)
             continue
